@@ -988,9 +988,9 @@ func TestCheck(t *testing.T) {
 
 	for _, entry := range []string{"data", "call", "event", "error"} {
 		entry := entry
-		q, th := 300, 4000
+		q, th := 300, 2000
 		if entry == "data" {
-			q, th = 500, 8000
+			q, th = 500, 4000
 		}
 		rec.Rapid(t, "sweep-"+entry, rec.N(q, th), func(rt *rapid.T) {
 			b := genBase(rt, entry)
